@@ -196,6 +196,18 @@ impl TestRunner {
         ram.write()
             .unwrap()
             .load_program(test_bank.range().start, test_bank.data());
+        // The cpu addresses code by its target address: a relocated segment (pc != start) or a segment that is not
+        // written to the output is not where the file image has it, so it is placed where the program expects it
+        for segment in ctx.segments().values() {
+            if segment.options().bank.as_ref() == Some(segment_bank)
+                && (segment.target_offset() != 0 || !segment.options().write)
+            {
+                let target_start = (segment.range().start as i64 + segment.target_offset()) as usize;
+                ram.write()
+                    .unwrap()
+                    .load_program(target_start, segment.range_data());
+            }
+        }
 
         let mut cpu = MOS6502::new();
         cpu.set_program_counter(active_test.data.as_i64() as u16);
